@@ -109,6 +109,8 @@ pub fn run(ctx: &Ctx, rep: &mut Report) {
         "{alpha_alpha_alpha: 1111111111, beta_beta_beta: 2222222222, gamma_gamma_gamma: 3333333333, delta_delta: 4444444444}",
         "some_function_name(1111111111, 2222222222, 3333333333, 4444444444, 5555555555, 6666666666, 7777777777)",
         "do {\n  t = 1\n  return t\n}",
+        "do { a; where into x\n return 1 }",
+        "do { via = 1; via + via\n return into via where }",
         "if aaaaaaaaaaaaaaaaaaaaaaaaaaaaaaaaaaaaaaaaaaaaaaaaaaaaaaaaaaaaaaaaaa then bbbbbbbbbbbbbbbbbbbbbbbb else cccccccccccccccccccccccc",
         "[\n  1, // inner\n  2,\n]",
     ] {
